@@ -112,20 +112,36 @@ def r2(ctx):
 def r3(ctx):
     ms = methods(ctx)
     f = ms['fetchChromosome']
-    # the name
-    name_nodes = [s for s in walk_no_nested(f) if isinstance(s, (ast.Assign, ast.AugAssign)) and 'cache_file_name' == src(s.targets[0] if isinstance(s, ast.Assign) else s.target)]
-    key_fields = set()
-    for s in name_nodes:
-        for n in ast.walk(s.value):
-            if isinstance(n, ast.Attribute) and isinstance(n.value, ast.Name) and n.value.id == 'self':
-                key_fields.add(n.attr)
-        # locals derived from fields
-        for nm in names_in(s.value):
-            for d in walk_no_nested(f):
-                if isinstance(d, ast.Assign) and src(d.targets[0]) == nm:
-                    for n in ast.walk(d.value):
-                        if isinstance(n, ast.Attribute) and isinstance(n.value, ast.Name) and n.value.id == 'self':
-                            key_fields.add(n.attr)
+    # the cache file name is whatever is handed to read_cached(); its key fields are the configuration fields in its backward slice
+    # (data and control dependences), however the name is spelled or assembled
+    rc = [c for c in walk_no_nested(f) if isinstance(c, ast.Call) and isinstance(c.func, ast.Attribute) and c.func.attr == 'read_cached' and c.args]
+    if not rc:
+        raise AnalysisError('fetchChromosome: read_cached call not found')
+    mod = ctx.ix.module(ALLELES)
+    relevant = set(names_in(rc[0].args[0]))
+    cache_names = set(relevant)
+    key_fields = {n.attr for n in ast.walk(rc[0].args[0]) if isinstance(n, ast.Attribute) and isinstance(n.value, ast.Name) and n.value.id == 'self'}
+    changed = True
+    while changed:
+        changed = False
+        for s in walk_no_nested(f):
+            if isinstance(s, (ast.Assign, ast.AugAssign)):
+                tg = s.targets[0] if isinstance(s, ast.Assign) else s.target
+                if isinstance(tg, ast.Name) and tg.id in relevant:
+                    exprs = [s.value]
+                    p_ = mod.parent.get(s)
+                    while p_ is not None and p_ is not f:
+                        if isinstance(p_, ast.If):
+                            exprs.append(p_.test)
+                        p_ = mod.parent.get(p_)
+                    for e in exprs:
+                        for n in ast.walk(e):
+                            if isinstance(n, ast.Attribute) and isinstance(n.value, ast.Name) and n.value.id == 'self' and n.attr not in key_fields:
+                                key_fields.add(n.attr)
+                                changed = True
+                            if isinstance(n, ast.Name) and n.id not in relevant and n.id != 'self':
+                                relevant.add(n.id)
+                                changed = True
     # compute region: statements after the cache-hit return
     config = set()
     init_params = {a.arg for a in ms['__init__'].args.args}
@@ -135,7 +151,7 @@ def r3(ctx):
             for n in walk_no_nested(s):
                 if isinstance(n, ast.Attribute) and isinstance(n.value, ast.Name) and n.value.id == 'self' and isinstance(n.ctx, ast.Load) and n.attr in init_params:
                     config.add(n.attr)
-        if isinstance(s, ast.If) and 'cache_file_name' in src(s) and 'read_cached' in src(s):
+        if isinstance(s, ast.If) and any(x is rc[0] for x in ast.walk(s)):
             started = True
     config -= {'verbose', 'use_cache'}
     ctx.need('C18-R3', len(config), 3, 'configuration fields read on the compute path')
